@@ -34,9 +34,8 @@ vars == << mode, A, den, shape, inp, phase, oshape, out, der >>
 
 \* material sets for the inverse mode, in units of 1/240:  eps 1 -> 240, 2 -> 120, 3 -> 80, 4 -> 60, 5 -> 48,
 \* 8 -> 30, 16 -> 15, 1/2 -> 480.  Sequences are deliberately NOT sorted (material dictionaries are unordered).
-MatSetsQ == { << 240, 120 >>, << 60, 240 >>, << 120, 240, 60 >>, << 80, 240, 48 >>,
-              << 30, 60, 120, 240 >>, << 240, 15, 60, 30, 120 >> }
-MatSetsT == MatSetsQ \cup { << 480, 240 >>, << 48, 80 >>, << 15, 240, 80 >>, << 480, 120, 30 >>,
+MatSetsQ == { << 240, 120 >>, << 80, 240, 48 >>, << 30, 60, 120, 240 >>, << 240, 15, 60, 30, 120 >> }
+MatSetsT == MatSetsQ \cup { << 60, 240 >>, << 120, 240, 60 >>, << 480, 240 >>, << 48, 80 >>, << 15, 240, 80 >>, << 480, 120, 30 >>,
                             << 240, 120, 80, 60, 48 >>, << 60, 15, 240, 480 >> }
 
 \* shape sets (a .cfg cannot contain tuples): every rank 1..3 with singleton axes in every position
